@@ -111,7 +111,7 @@ def _var_fn(case, n):
     key = (case["k"], case["op"], n)
     f = _st["fns"].get(key)
     if f is None:
-        params = [sym.symbol(p) for p in ("a", "b")[:n]]
+        params = [sym.symbol(p) for p in ("a", "b", "c")[:n]]
         form = llist.l(sym.symbol("fn"), vec.vector(params), llist.l(_opsym(case), *params))
         f = _st["fns"][key] = _evform(form)
     return f
